@@ -221,7 +221,7 @@ fn gen_usable(dec: &mut Dec, model: &Tree, want_existing: u32, last_may_be_link:
 /// Dress a logical relative path as the string handed to tiny-std.
 fn shape(dec: &mut Dec, root: &Path, rel: &[u8]) -> (Vec<u8>, &'static str) {
     let mut s: Vec<u8> = Vec::new();
-    let style = dec.choose(K::Arg, 6);
+    let style = dec.choose(K::Arg, 7);
     let mut tag = "relative";
     if style == 1 || style == 2 {
         s.extend(root.as_os_str().as_bytes());
@@ -237,6 +237,11 @@ fn shape(dec: &mut Dec, root: &Path, rel: &[u8]) -> (Vec<u8>, &'static str) {
             if style == 4 {
                 s.push(b'/');
                 tag = "repeated-separators";
+            }
+            if style == 6 {
+                // a "." component between two components designates the same path
+                s.extend(b"./");
+                tag = "dot-components";
             }
         }
         s.extend(c);
